@@ -17,3 +17,41 @@ PROPS["C19"] = {
     "runs": [{"engine": "value"}],
     "assumptions": ["the laws are decided on the values generated; values outside the pool and the seeded random stream are not covered"],
 }
+
+PROPS["C18"] = {
+    "title": "Routing is deterministic: patterns invert, ambiguity is detected",
+    "level": "exploration",
+    "design_ref": "DESIGN.md §3 C18",
+    "technique": "runtime monitoring of the real RoutePattern/RouteUri under generated patterns, parameter maps, mutation-derived pattern pairs and synthesised URIs",
+    "text": "On the real RoutePattern/RouteUri: for ~1.5 M (quick) / 12 M (thorough) generated patterns x hostile parameter maps, apply then unapply returns exactly the bindings; matching is identical across repeated calls, RouteUri constructors and re-parsed patterns and never binds an empty segment; for as many pattern pairs every URI found to be matched by both patterns must be reported by are_ambiguous in both argument orders; malformed patterns are rejected without panic; every route table accepted by the server's pairwise rule (cross-checked against ServerBuilder::build) resolves each synthesised URI to at most one route.",
+    "note": "Trusted base: the generators and a 10-line percent-decoder used only to build inputs and to name signature classes; verdicts come from the code under test alone. Overlap between two patterns is searched by synthesis, so an overlap of an exotic shape can be missed.",
+    "runs": [{"engine": "route"}],
+    "assumptions": ["find_route is the first match of unapply_route_uri in insertion order", "PlaneBuilder::build is the only acceptance gate (introspection meta-routes not enabled)"],
+}
+
+PROPS["C13"] = {
+    "title": "Both stores behave as isolated per-agent, per-item value/map storage",
+    "level": "fault_enumeration",
+    "design_ref": "DESIGN.md §3 C13",
+    "technique": "model-based runtime monitoring of the real in-memory and RocksDB stores + fault enumeration (reopen points, SIGKILL of a writer process) + valgrind memcheck",
+    "text": "Every answer of every operation over adversarial (agent, item, key) histories is compared with a reference map through the public persistence traits, for the in-memory store (incl. the idle/in-use hand-over) and for RocksDB; ids must be stable and injective per agent and storage sharing between different (agent, item) pairs is detected by probe. For RocksDB this is checked across close/reopen at enumerated positions (every position in the thorough tier) and after SIGKILL of a writer process at seeded instants, requiring all acknowledged operations to be present and the store to remain usable.",
+    "note": "Trusted base: the ~60-line reference model, the expansion of operations into single trait calls, the stdout ack protocol of the writer child. SIGKILL exercises process death, not power loss (the OS page cache survives). RocksDB itself is exercised, not modelled.",
+    "runs": [{"engine": "store"}],
+    "sanitizers": [{"kind": "valgrind", "engine": "store", "args": ["--scale", "0.005", "--threads", "1", "--only", "rocks-reopen"], "timeout_s": 1800}],
+    "assumptions": ["sequential histories (no concurrent callers on one plane)", "fixed kind per item", "kill instants are sampled; the kill instant itself is not replayable", "TMPDIR honours write ordering for a killed process"],
+}
+
+PROPS["C17"] = {
+    "title": "Inactivity shutdown needs all parties idle at once and cannot deadlock",
+    "level": "exploration",
+    "design_ref": "DESIGN.md §3 C17",
+    "technique": "small-scope exhaustive execution of the real primitive against a specification model; randomized long sequences; multi-threaded stress with an offline interval checker; ThreadSanitizer; Miri",
+    "text": "The real timeout_coord primitive (both in-tree constructors, 2 and 3 voters) is executed on every sequence of vote / rescind / drop / poll up to depth 8 / 6 (10 / 7 thorough), on 200 k - 5 M random 40-call sequences and on 20 k - 400 k multi-threaded runs. Every answer is compared with a model derived from the statement: unanimity is claimed only when every party holds a vote or is gone at the same moment; it is never denied afterwards; a pending waker fires on the latching call; a parked waiter always terminates (decided logically, not by timeout). Findings are classified by whether in-tree callers can produce the sequence.",
+    "note": "Trusted base: the 60-line reference model and caller-discipline classifier in engines/vote/src/model.rs and the interval argument of the threaded checker (a call linearises inside its ticket interval). Exhaustive only up to the depth bound; concurrency is sampled (25% of threaded runs draw no tickets so that the SeqCst ticket clock does not mask weak-memory behaviour).",
+    "runs": [{"engine": "vote"}],
+    "sanitizers": [
+        {"kind": "tsan", "engine": "vote", "args": ["--scale", "0.05", "--only", "threaded"], "quick": True, "timeout_s": 1800},
+        {"kind": "miri", "engine": "vote", "args": ["--scale", "0.002", "--threads", "1", "--only", "threaded"], "timeout_s": 3600},
+    ],
+    "assumptions": ["a dropped voter counts as voting even if it had rescinded", "at most 3 parties (the only in-tree constructors)"],
+}
